@@ -3,6 +3,9 @@ package sa
 import (
 	"context"
 	"fmt"
+	"github.com/herohde/morlock/pkg/board"
+	"github.com/herohde/morlock/pkg/eval"
+	"verif/sim/bridge"
 
 	"github.com/herohde/morlock/pkg/engine"
 	"github.com/herohde/morlock/pkg/search"
@@ -299,6 +302,32 @@ func sessionEngines(t *tape.Tape, fill bool) *core.RunResult {
 		return res
 	}
 	ref, refFills := solo.pvs, solo.fills
+	// An independent reference for what "the game state" is: the same search run directly on a board on
+	// which the game was replayed move by move, never forked (every engine analysis runs on a fork of the
+	// engine's board, so a fork that loses part of the state is the same on all engines compared below).
+	if !fill && noise == 0 && hash == 0 && len(ref) > 0 && ref[len(ref)-1].Depth == depth {
+		zt := board.NewZobristTable(seed0)
+		if rb, err := bridge.NewBoard(zt, g.Start.FEN(g.StartHalf, g.StartFull)); err == nil {
+			ok := true
+			for _, m := range g.Moves {
+				rm, found := bridge.FindRepoMove(rb.Position(), rb.Turn(), m)
+				if !found || !rb.PushMove(rm) {
+					ok = false
+					break
+				}
+			}
+			if ok {
+				nodes, score, moves, err := solo.b.Root.Search(ctx, &search.Context{Alpha: eval.NegInfScore, Beta: eval.InfScore, TT: search.NoTranspositionTable{}}, rb, depth)
+				if err == nil {
+					if direct := recOf(search.PV{Depth: depth, Score: score, Moves: moves, Nodes: nodes}); direct != ref[len(ref)-1] {
+						res.Violate("C18", "search-not-deterministic", steps, "wiring %s, game %q, depth %d: the engine's analysis (on a fork of its board) reports %+v; the same search run directly on a board on which the same game was replayed reports %+v: what a search returns does not depend on the game state and the depth only", w, g.FEN(), depth, ref[len(ref)-1], direct)
+						return res
+					}
+					res.Probe("analysis-compared-with-direct-search-on-replayed-board")
+				}
+			}
+		}
+	}
 	if fill && len(refFills) != len(ref) {
 		panic("one fill fraction per iteration")
 	}
